@@ -34,11 +34,11 @@ PrimVals(p) ==
                            <<174,71,225,122,20,174,71,1>> >>
     [] OTHER         -> ScalarVals(PrimWidth[p])
 
-\* two distinct, well-behaved keys per key type (no NaN, no -0)
+\* two distinct, well-behaved keys per key type (no -0: Go maps identify it with +0); float types also get a NaN
 KeyVals(p) ==
   CASE p = "bool"    -> << <<1>>, <<0>> >>
-    [] p = "float32" -> << <<0,0,192,63>>, <<0,0,128,255>> >>
-    [] p = "float64" -> << Z(6) \o <<248,63>>, Z(6) \o <<240,255>> >>
+    [] p = "float32" -> << <<0,0,192,63>>, <<0,0,128,255>>, <<0,0,192,127>> >>            \* ... and a NaN: a key no lookup finds again
+    [] p = "float64" -> << Z(6) \o <<248,63>>, Z(6) \o <<240,255>>, Z(6) \o <<248,127>> >>
     [] p = "string"  -> << <<107,49>>, <<>> >>
     [] p = "guid"    -> << [i \in 1..16 |-> i - 1], FF(16) >>
     [] p = "date"    -> << <<0,0,104,76,234,215,56,0>>, <<1>> \o Z(7) >>
@@ -102,6 +102,12 @@ Depth1 ==
   \o [i \in 1..Len(Leaves) |-> Wrap(Leaves[i], M("uint32", Leaves[i].t), "map[uint32]")]
   \o [i \in 1..Len(PrimSeq) |-> [t |-> M(PrimSeq[i], P("int32")), sup |-> <<>>,
                                  tag |-> "map[" \o PrimSeq[i] \o "]<int32>"]]
+  \* float keys (incl. NaN) with values a decoder has to build or measure after storing them
+  \o << [t |-> M("float32", P("string")), sup |-> <<>>, tag |-> "map[float32]<string>"],
+        [t |-> M("float64", A(P("int32"))), sup |-> <<>>, tag |-> "map[float64].arr<int32>"],
+        [t |-> M("float32", M("string", P("int32"))), sup |-> <<>>, tag |-> "map[float32].map[string]<int32>"],
+        [t |-> M("float64", R("Inner")), sup |-> <<InnerDef>>, tag |-> "map[float64]<struct>"],
+        [t |-> M("float32", R("Msg")), sup |-> <<MsgDef>>, tag |-> "map[float32]<message>"] >>
 Depth2 ==
      [i \in 1..Len(Leaves) |-> Wrap(Leaves[i], A(A(Leaves[i].t)), "arr.arr")]
   \o [i \in 1..Len(Leaves) |-> Wrap(Leaves[i], M("string", A(Leaves[i].t)), "map[string].arr")]
@@ -258,6 +264,7 @@ Vals(S, t) ==
         << <<>>, << <<kv[1], vv[1]>> >>,
            << <<kv[1], vv[Len(vv)]>>, <<kv[2], vv[1]>> >>,
            << <<kv[2], Cyc(vv, 2)>>, <<kv[1], Cyc(vv, 3)>> >> >>
+        \o (IF Len(kv) > 2 THEN << << <<kv[3], vv[Len(vv)]>>, <<kv[1], vv[1]>> >> >> ELSE <<>>)
     [] t.k = "r" ->
         LET d == Def(S, t.n) IN
         CASE d.kind = "enum" -> [i \in 1..Len(d.members) |-> d.members[i].val]
